@@ -124,7 +124,18 @@ type integ struct {
 	SR   bool   `json:"sr"`
 }
 
+// tiv is a named time interval: minutes [From, To) of every day (UTC)
+type tiv struct {
+	Name string `json:"name"`
+	From int64  `json:"from"` // ms since midnight (= since the bubble's epoch on the first day)
+	To   int64  `json:"to"`
+}
+
+func hhmm(ms int64) string { m := ms / 60000; return fmt.Sprintf("%02d:%02d", m/60, m%60) }
+
 type scenCfg struct {
+	Mute    []tiv // mute_time_intervals of the route
+	Active  []tiv // active_time_intervals of the route
 	T       timers
 	Integs  []integ // integrations of receiver r1 (initial configuration)
 	Alt     []integ // integrations after a reload that changes the receiver (nil: reloads keep it)
@@ -146,10 +157,61 @@ func mkIntegs(kinds []string, srs []bool) []integ {
 	return out
 }
 
+func (c scenCfg) child() bool { return len(c.Mute)+len(c.Active) > 0 }
+
+// gkPrefix is the route key part of the group keys of this configuration.
+func (c scenCfg) gkPrefix() string {
+	if c.child() {
+		return `{}/{alertname=~".+"}`
+	}
+	return "{}"
+}
+
 func (c scenCfg) yaml(integs []integ) string {
 	var sb strings.Builder
 	fmt.Fprintf(&sb, "global:\n  resolve_timeout: %dms\n  smtp_smarthost: 'localhost:25'\n  smtp_from: 'am@example.org'\n  smtp_require_tls: false\n", resolveTimeout/time.Millisecond)
+	if len(c.Mute)+len(c.Active) > 0 {
+		sb.WriteString("time_intervals:\n")
+		for _, iv := range append(append([]tiv{}, c.Mute...), c.Active...) {
+			fmt.Fprintf(&sb, "- name: %s\n  time_intervals:\n  - times:\n    - start_time: '%s'\n      end_time: '%s'\n", iv.Name, hhmm(iv.From), hhmm(iv.To))
+		}
+	}
 	fmt.Fprintf(&sb, "route:\n  receiver: r1\n  group_by: [g]\n  group_wait: %s\n  group_interval: %s\n  repeat_interval: %s\n", c.T.gw, c.T.gi, c.T.ri)
+	if c.child() {
+		// the root route may not carry time intervals: a catch-all child route does
+		sb.WriteString("  routes:\n  - matchers: ['alertname=~\".+\"']\n")
+	}
+	sub := &sb
+	if c.child() {
+		sub = &strings.Builder{}
+	}
+	defer func() {}()
+	if len(c.Mute) > 0 {
+		sub.WriteString("  mute_time_intervals: [")
+		for i, iv := range c.Mute {
+			if i > 0 {
+				sub.WriteString(", ")
+			}
+			sub.WriteString(iv.Name)
+		}
+		sub.WriteString("]\n")
+	}
+	if len(c.Active) > 0 {
+		sub.WriteString("  active_time_intervals: [")
+		for i, iv := range c.Active {
+			if i > 0 {
+				sub.WriteString(", ")
+			}
+			sub.WriteString(iv.Name)
+		}
+		sub.WriteString("]\n")
+	}
+	if c.child() {
+		// indent the child's options
+		for _, ln := range strings.Split(strings.TrimRight(sub.String(), "\n"), "\n") {
+			sb.WriteString("  " + ln + "\n")
+		}
+	}
 	if c.Inhibit {
 		sb.WriteString("inhibit_rules:\n- source_matchers: ['sev=\"crit\"']\n  target_matchers: ['sev=\"warn\"']\n  equal: [g]\n")
 	}
@@ -205,6 +267,27 @@ func genScenario(rng *rand.Rand) (scenCfg, []envEvent, []inst.Window, time.Durat
 	horizon := 3*cfg.T.ri + 4*cfg.T.gi + 2*time.Minute
 	if horizon > 5*time.Hour {
 		horizon = 5 * time.Hour
+	}
+	hmin := int64(horizon / time.Minute)
+	mkiv := func(name string) tiv {
+		from := 1 + rng.Int63n(max(hmin-3, 1))
+		length := 2 + rng.Int63n(int64(2*cfg.T.gi/time.Minute)+6)
+		to := from + length
+		if to > 23*60 {
+			to = 23 * 60
+		}
+		return tiv{Name: name, From: from * 60000, To: to * 60000}
+	}
+	switch rng.Intn(8) {
+	case 0:
+		cfg.Mute = []tiv{mkiv("m1")}
+	case 1:
+		cfg.Mute = []tiv{mkiv("m1"), mkiv("m2")}
+	case 2:
+		cfg.Active = []tiv{{Name: "a1", From: 0, To: (1 + rng.Int63n(max(hmin, 1))) * 60000}}
+	case 3:
+		cfg.Mute = []tiv{mkiv("m1")}
+		cfg.Active = []tiv{mkiv("a1"), {Name: "a2", From: 0, To: 2 * 60000}}
 	}
 	n := 6 + rng.Intn(14)
 	var evs []envEvent
@@ -394,6 +477,7 @@ func TestScenarios(t *testing.T) {
 			lg.Add(inst.Event{Ev: "cfg", Data: map[string]any{
 				"gw": int64(cfg.T.gw / time.Millisecond), "gi": int64(cfg.T.gi / time.Millisecond), "ri": int64(cfg.T.ri / time.Millisecond),
 				"integs": cfg.Integs, "inhibit": cfg.Inhibit, "rt": int64(resolveTimeout / time.Millisecond), "windows": windows, "wait": 0, "maxwait": 0,
+				"mute": nonNil(cfg.Mute), "active": nonNil(cfg.Active), "gkp": cfg.gkPrefix(),
 			}})
 			cur := cfg.Integs
 			if err := in.Reload(cfg.yaml(cur)); err != nil {
@@ -497,6 +581,13 @@ func TestScenarios(t *testing.T) {
 	}
 }
 
+func nonNil(x []tiv) []tiv {
+	if x == nil {
+		return []tiv{}
+	}
+	return x
+}
+
 func agOf(x any) string {
 	id, _ := notify.AggrGroupID(x.(context.Context))
 	return id
@@ -540,17 +631,29 @@ func apiViews(in *inst.Instance, lg *inst.Log) {
 		Labels map[string]string `json:"labels"`
 		Alerts []struct {
 			Labels map[string]string `json:"labels"`
+			Status struct {
+				MutedBy []string `json:"mutedBy"`
+			} `json:"status"`
 		} `json:"alerts"`
 	}
 	if in.Get("/api/v2/alerts/groups", &groups) == 200 {
 		out := []map[string]any{}
 		for _, g := range groups {
 			names := []string{}
+			muted := map[string]bool{}
 			for _, a := range g.Alerts {
 				names = append(names, nameOfLabels[canonLabels(a.Labels)])
+				for _, m := range a.Status.MutedBy {
+					muted[m] = true
+				}
 			}
 			sort.Strings(names)
-			out = append(out, map[string]any{"g": g.Labels["g"], "alerts": names})
+			mb := []string{}
+			for m := range muted {
+				mb = append(mb, m)
+			}
+			sort.Strings(mb)
+			out = append(out, map[string]any{"g": g.Labels["g"], "alerts": names, "mutedby": mb})
 		}
 		sort.Slice(out, func(i, j int) bool { return out[i]["g"].(string) < out[j]["g"].(string) })
 		lg.Add(inst.Event{Ev: "api.groups", Data: map[string]any{"groups": out}})
